@@ -107,8 +107,8 @@ def execute(ctx, scn, events, tids, next_tid, data=None):
             err = repr(e)
     else:
         p = subprocess.run(
-            core.cli_cmd("image", "update", "--input-file", inp, "--storage-output-file", st,
-                         "--dfu-partition-output-file", pf, "--update-candidate-info-address", core.num(scn["uci"]),
+            core.cli_cmd("image", "update", "--input-file", inp, "--storage-output-file", core.spell(st, d, scn.get("seed", 0)),
+                         "--dfu-partition-output-file", core.spell(pf, d, scn.get("seed", 0) // 4), "--update-candidate-info-address", core.num(scn["uci"]),
                          "--dfu-partition-address", core.num(scn["part"]), "--dfu-max-caches", scn["caches"]),
             cwd=d, env=core.cli_env(), capture_output=True, text=True)
         if p.returncode:
